@@ -159,6 +159,18 @@ def _run_real(root, dumper, inp, mode, entry):
             except Exception as e:
                 fin = ("err", type(e).__name__, None, "", None)
             return ("scan", out, fin)
+        if entry[0] == "transform":
+            kt = root.keepTabs                      # transform_string switches keepTabs on for good: restore it for the next case
+            try:
+                return ("str", root.transform_string(inp))
+            except pp.ParseBaseException as e:
+                return exc_from_real(e, dumper)
+            except RecursionError:
+                return ("div",)
+            except Exception as e:
+                return ("err", type(e).__name__, None, "", None)
+            finally:
+                root.keepTabs = kt
         raise ValueError(entry)
 
 
@@ -176,6 +188,8 @@ def entry_sx(entry):
         return "(scan %s %d %d)" % ("N" if entry[1] is None else entry[1], int(entry[2]), int(entry[3]))
     if entry[0] == "peg":
         return "(peg)"
+    if entry[0] == "transform":
+        return "(transform)"
     raise ValueError(entry)
 
 
@@ -245,6 +259,8 @@ def outcome_from_model(text, dumper):
         else:
             res = (r,)
         return ("peg", sx[1] == "1", sx[2] == "1", res)
+    if k == "str":
+        return ("str", "".join(chr(int(c)) for c in sx[1:]))
     if k == "bad":
         return ("bad", text)
     raise ValueError(text)
